@@ -784,7 +784,18 @@ pub fn pset_byzantine(p: &mut Prng, reference: &[u8]) -> Option<Delivery> {
                 return None;
             }
             let m = &maps[1 + n_in + p.usize_below(maps.len() - 1 - n_in)];
-            match p.below(4) {
+            match p.below(5) {
+                4 => {
+                    // an output that is marked for blinding and fully blinded loses ONE piece of its blinding data: the
+                    // format admits blinding data absent or complete, nothing in between
+                    let has = |st: u8| m.pairs.iter().any(|x| is_pset_prop(x, st));
+                    if !(has(0x06) && [0x01u8, 0x03, 0x04, 0x05, 0x07].iter().all(|st| has(*st))) {
+                        return None;
+                    }
+                    let st = *p.pick(&[0x01u8, 0x03, 0x04, 0x05, 0x07]);
+                    let pr = m.pairs.iter().find(|x| is_pset_prop(x, st))?;
+                    Some(vec![Edit { label: "byz.missing".into(), pos: pr.start, remove: pr.end - pr.start, insert: vec![] }])
+                }
                 0 => {
                     let (s, e) = find(m, 0x04)?;
                     Some(vec![Edit { label: "byz.missing".into(), pos: s, remove: e - s, insert: vec![] }])
